@@ -2308,7 +2308,11 @@ def settings_persist(ctx, sc: SimCtx, rule='R5.7'):
                 continue
             params = {a.arg for a in fn.args.args[1:] + fn.args.kwonlyargs}
             for a in walk_shallow(fn):
-                if isinstance(a, (ast.Assign, ast.AnnAssign)) and getattr(a, 'value', None) is not None and isinstance(a.value, ast.Name) and a.value.id in params:
+                # the argument itself, or an object built from the arguments (`self.F = Policy(strategy, level)`)
+                if isinstance(a, (ast.Assign, ast.AnnAssign)) and getattr(a, 'value', None) is not None and (
+                        (isinstance(a.value, ast.Name) and a.value.id in params)
+                        or (isinstance(a.value, ast.Call) and isinstance(a.value.func, ast.Name) and a.value.args
+                            and all(isinstance(x, ast.Name) and x.id in params for x in a.value.args))):
                     for t in (a.targets if isinstance(a, ast.Assign) else [a.target]):
                         if is_self_attr(t):
                             settings.setdefault(t.attr, set()).add(mname)
@@ -2341,7 +2345,7 @@ def settings_persist(ctx, sc: SimCtx, rule='R5.7'):
                             f', the setting stored by {" / ".join(sorted(settings[f]))}(): what the user configured is replaced behind their back '
                             f'(after cleanup() / a second initialize() the simulator handles failing events with the default strategy again)', where=f'{c}.{mname}')
     ctx.ob(rule, 'settings', n == 0, sample=f'settings {sorted((f, sorted(v)) for f, v in settings.items())}: written only by their setters and constructors: {n == 0}')
-    ctx.floor(rule, 'settings with a public setter', len(settings), 2)
+    ctx.floor(rule, 'settings with a public setter', len(settings), 1)
 
 
 # --------------------------------------------------------------------------- TIME_CHANGED only for executed events
